@@ -281,14 +281,20 @@ def run_shard(spec, ctx):
                 break
             n, m = (narrow, wide) if o == 0 else (wide, narrow)
             ctx.count('skewed_shapes')
-            run_item([what, n, m, (k % 3) == 0], ctx)
+            for be_ in (False, True):      # both bit orders for every shape (an order tied to the grid index leaves holes)
+                run_item([what, n, m, be_], ctx)
     elif spec['kind'] == 'targeted':
         for item in spec['items']:
             if ctx.out_of_time():
                 ctx.count('stopped_on_budget')
                 ctx.note_inconclusive('targeted width %r not reached within the budget' % (item,))
                 return
-            run_item(item, ctx)
+            # the listed bit order for even seeds, the other one for odd seeds: every targeted width is run in both orders
+            # over any two consecutive seeds
+            be_ = bool(item[3]) ^ (int(ctx.seed) % 2 == 1)
+            run_item(item[:3] + [be_], ctx)
+            if ctx.tier == 'thorough':
+                run_item(item[:3] + [not be_], ctx)
     else:
         for _ in range(spec['count']):
             if ctx.out_of_time():
